@@ -272,7 +272,9 @@ Section Group.
       assert (E1 : sL * (Ld * Rd) == (sL * Ld) * Rd) by ering.
       assert (E2 : sR * (Ld * Rd) == (sR * Rd) * Ld) by ering.
       rewrite E1, E2, Lx, Rx. apply eqm_sub_zero.
-      rewrite Ix, H1, H2, H3. ering.
+      rewrite Ix, H1, H2, H3.
+      generalize (Qx1 a d x1 y1 x2 y2 x3 y3) (Qx2 a d x1 y1 x2 y2 x3 y3) (Qx3 a d x1 y1 x2 y2 x3 y3).
+      intros k1 k2 k3. ering.
     - set (tL := snd (add (add (x1, y1) (x2, y2)) (x3, y3))) in *.
       set (tR := snd (add (add (x2, y2) (x3, y3)) (x1, y1))) in *.
       set (Ld := Ayd a d x1 y1 x2 y2 x3 y3) in *. set (Ln := Ayn a d x1 y1 x2 y2 x3 y3) in *.
@@ -282,7 +284,9 @@ Section Group.
       assert (E1 : tL * (Ld * Rd) == (tL * Ld) * Rd) by ering.
       assert (E2 : tR * (Ld * Rd) == (tR * Rd) * Ld) by ering.
       rewrite E1, E2, Ly, Ry. apply eqm_sub_zero.
-      rewrite Iy, H1, H2, H3. ering.
+      rewrite Iy, H1, H2, H3.
+      generalize (Qy1 a d x1 y1 x2 y2 x3 y3) (Qy2 a d x1 y1 x2 y2 x3 y3) (Qy3 a d x1 y1 x2 y2 x3 y3).
+      intros k1 k2 k3. ering.
   Qed.
 End Group.
 
